@@ -39,6 +39,8 @@ GLOSS = ['\\newglossaryentry{k}{', 'description', 'name', '=', ',', '{', '}', 'a
 # constructs whose text is mapped to the last characters of the source
 ENDS = ['A', '\n', '\\newcommand{\\y}[1]{#1\n\n}', '\\y', '~', ' ', '{', '}', 'ß', '\\section', '\\footnote', '\\item', '$', '.',
         '\\newacronym{k}{b}', '\\LTinput{/tmp/yvfiles/f.tex}', '\\verb|', '\\newcommand{\\w}{b\n\n\\label{k}\n}', '\\w']
+# macro definitions with parameter texts
+DEFM = ['\\def\\x', '\\def\\y#1', '#1', '#2', '[', ']', '{', '}', 'a', ' ', '{#1}', '{#2}', '[#1]', '\\x', '\\y']
 # numbers of arguments
 NUMS = ['\\newcommand{\\y}[', '\\renewcommand{\\y}[', '99999999999999', '9', '10', '0', ']{', '][d]{', '#1', '#9', '}', '\\y', 'a', '{']
 # one-argument constructs, nested in themselves: the work must not explode (a linear-size input)
@@ -98,6 +100,18 @@ def free_sim(c, syms, num, lo, hi):
     return [[syms[i - 1] for i in b['doc']] for b in r.json('@@')]
 
 
+BASE = ['a', ' ', '\n', '{', '}', '[', ']', '$', '\n\n', 'b']
+
+
+def free_pairs(c, syms, num, lo, hi, nspecial=3):
+    """focused simulation (GenFreePair.tla): at most nspecial distinct snippets besides the delimiters of BASE"""
+    order = BASE + [s for s in syms if s not in BASE]
+    cfg = tlc.cfg_text(spec='PSpec', constants={'NSym': len(order), 'MaxSym': hi, 'MinSym': lo, 'NBase': len(BASE), 'MaxSpecial': nspecial}, invariants=['TypeOK', 'Dump'])
+    r = c.tlc('focused free generator P(%d) length %d..%d over %d snippets, <= %d special ones per document' % (num, lo, hi, len(order), nspecial), 'GenFreePair', cfg,
+              simulate=num, depth=hi + 2, seed=c.seed, workers=4)
+    return [[order[i - 1] for i in b['doc']] for b in r.json('@@')]
+
+
 def wellformed_docs(c, num):
     from checks import flow
     syms = sorted(set(flow.PROSE + flow.COPY + flow.GENER))
@@ -154,15 +168,17 @@ def run(prop, tier, seed, replay=None):
         q = tier == 'quick'
         if q:
             sets = [(VOCAB, 2, 'two'), (MID24, 3, 'one'), (CORE12, 4, 'one'), (CORE8, 4, 'two'), (KEYVAL, 4, 'one'),
-                    (GLOSS, 3, 'two'), (ENDS, 3, 'two'), (NUMS, 4, 'one')]
-            sims = [(VOCAB, 1500, 5, 14), (KEYVAL, 300, 4, 9), (GLOSS, 400, 4, 8), (ENDS, 600, 4, 8)]
+                    (GLOSS, 3, 'two'), (ENDS, 3, 'one'), (NUMS, 3, 'one'), (DEFM, 3, 'one')]
+            sims = [(VOCAB, 1500, 5, 14), (KEYVAL, 300, 4, 9), (GLOSS, 400, 4, 8), (ENDS, 600, 4, 8), (NUMS, 600, 4, 7), (DEFM, 1500, 3, 6)]
         else:
             sets = [(VOCAB, 2, 'all'), (MID, 3, 'two'), (CORE12, 5, 'two'), (CORE8, 6, 'two'), (KEYVAL, 5, 'two'), (VOCAB[:60], 3, 'one'),
-                    (GLOSS, 4, 'two'), (ENDS, 4, 'two'), (NUMS, 5, 'two')]
-            sims = [(VOCAB, 30000, 5, 16), (KEYVAL, 3000, 4, 10), (GLOSS, 6000, 5, 10), (ENDS, 8000, 5, 10)]
+                    (GLOSS, 4, 'two'), (ENDS, 4, 'two'), (NUMS, 5, 'two'), (DEFM, 5, 'one')]
+            sims = [(VOCAB, 30000, 5, 16), (KEYVAL, 3000, 4, 10), (GLOSS, 6000, 5, 10), (ENDS, 8000, 5, 10), (NUMS, 6000, 5, 9), (DEFM, 10000, 4, 9)]
         seen = set()
         batches = [(free_docs(c, syms, n), prof) for syms, n, prof in sets]
         batches += [(free_sim(c, syms, num, lo, hi), 'one') for syms, num, lo, hi in sims]
+        allsn = list(dict.fromkeys(VOCAB + GLOSS + ENDS + NUMS + DEFM + KEYVAL))
+        batches += [(free_pairs(c, allsn, 3000 if q else 60000, 4, 10), 'one')]
         for docs, prof in batches:
             for d in docs:
                 t = ''.join(d)
